@@ -49,16 +49,13 @@ func (n *DayNode) Reset() {
 }
 
 func (n *DayNode) Next() (overflowed bool) {
+	if n.n != 0 {
+		return n.nextDayN()
+	}
 	if n.isWeekday() {
-		if n.n == 0 {
-			return n.nextWeekday()
-		}
-		return n.nextWeekdayN()
+		return n.nextWeekday()
 	}
-	if n.n == 0 {
-		return n.nextDay()
-	}
-	return n.nextDayN()
+	return n.nextDay()
 }
 
 func (n *DayNode) nextWeekday() (overflowed bool) {
@@ -80,7 +77,15 @@ func (n *DayNode) nextWeekday() (overflowed bool) {
 }
 
 func (n *DayNode) nextDay() (overflowed bool) {
-	return n.c.Next()
+	if n.c.Next() {
+		return true
+	}
+	if n.c.value > n.max() {
+		// the remaining values do not exist in this month
+		n.c.Reset()
+		return true
+	}
+	return false
 }
 
 func (n *DayNode) findForward() result {
@@ -94,6 +99,11 @@ func (n *DayNode) findForward() result {
 }
 
 func (n *DayNode) isValid() bool {
+	if n.n != 0 {
+		// L, W and # rules select at most one day of the month
+		target, ok := n.targetDay()
+		return ok && n.c.value == target
+	}
 	withinLimits := n.isValidDay()
 	if n.isWeekday() {
 		withinLimits = withinLimits && n.isValidWeekday()
@@ -141,17 +151,33 @@ func (n *DayNode) max() int {
 	return date.Day()
 }
 
+// nextDayN moves to the day selected by an L, W or # rule if it lies ahead
+// in the current month; otherwise it reports an overflow and leaves it to the
+// state machine to advance the month.
 func (n *DayNode) nextDayN() (overflowed bool) {
-	switch {
-	case n.n > 0 && n.n&NWeekday != 0:
-		n.nextWeekdayOfMonth()
-	default:
-		n.nextLastDayOfMonth()
+	target, ok := n.targetDay()
+	if ok && n.c.value < target {
+		n.c.value = target
+		return false
 	}
-	return
+	n.c.value = n.c.min
+	return true
 }
 
-func (n *DayNode) nextWeekdayOfMonth() {
+// targetDay returns the day of the current month selected by an L, W or #
+// rule, if there is one.
+func (n *DayNode) targetDay() (int, bool) {
+	switch {
+	case n.isWeekday():
+		return n.weekdayOfMonth()
+	case n.n > 0 && n.n&NWeekday != 0:
+		return n.closestWeekdayOfMonth(), true
+	default:
+		return n.lastDayOfMonth()
+	}
+}
+
+func (n *DayNode) closestWeekdayOfMonth() int {
 	year := n.year.Value()
 	month := n.month.Value()
 
@@ -161,70 +187,27 @@ func (n *DayNode) nextWeekdayOfMonth() {
 		date = monthLastDate
 	}
 
-	monthDate := makeDateTime(year, month, date)
-	closest := closestWeekday(monthDate)
-	if n.c.value >= closest {
-		n.c.value = 0
-		n.advanceMonth()
-		n.nextWeekdayOfMonth()
-		return
-	}
-
-	n.c.value = closest
+	return closestWeekday(makeDateTime(year, month, date))
 }
 
-func (n *DayNode) nextLastDayOfMonth() {
-	year := n.year.Value()
-	month := n.month.Value()
-
-	firstDayOfMonth := makeDateTime(year, month, 1)
+func (n *DayNode) lastDayOfMonth() (int, bool) {
 	offset := n.n
 	if offset == NLastDayOfMonth {
 		offset = 0
 	}
-	dayOfMonth := firstDayOfMonth.AddDate(0, 1, offset-1)
-
-	if n.c.value >= dayOfMonth.Day() {
-		n.c.value = 0
-		n.advanceMonth()
-		n.nextLastDayOfMonth()
-		return
-	}
-
-	n.c.value = dayOfMonth.Day()
+	day := lastDayOfMonth(n.year.Value(), n.month.Value()) + offset
+	return day, day >= n.c.min
 }
 
-func (n *DayNode) nextWeekdayN() (overflowed bool) {
-	n.c.value = n.getDayInMonth(n.daysOfWeekInMonth())
-	return
-}
-
-func (n *DayNode) getDayInMonth(dates []int) int {
+func (n *DayNode) weekdayOfMonth() (int, bool) {
+	dates := n.daysOfWeekInMonth()
 	if n.n > len(dates) {
-		n.advanceMonth()
-		return n.getDayInMonth(n.daysOfWeekInMonth())
+		return 0, false
 	}
-
-	var dayInMonth int
 	if n.n > 0 {
-		dayInMonth = dates[n.n-1]
-	} else {
-		dayInMonth = dates[len(dates)-1]
+		return dates[n.n-1], true
 	}
-
-	if n.c.value >= dayInMonth {
-		n.c.value = 0
-		n.advanceMonth()
-		return n.getDayInMonth(n.daysOfWeekInMonth())
-	}
-
-	return dayInMonth
-}
-
-func (n *DayNode) advanceMonth() {
-	if n.month.Next() {
-		_ = n.year.Next()
-	}
+	return dates[len(dates)-1], true
 }
 
 func (n *DayNode) daysOfWeekInMonth() []int {
